@@ -130,7 +130,7 @@ def main_slices(ctx, entry='mininec.main'):
     for i, st in enumerate(body):
         if isinstance(st, ast.Assign) and 'parse_args' in norm(st.value):
             start = i + 1
-    n_direct = sum(1 for st in body[start or 0:] if re.search(r'\bargs\.\w+', norm(st)) and 'split' in norm(st)) if start is not None else 0
+    n_direct = sum(1 for st in body[start or 0:] if re.search(r'\bargs\.\w+', norm(st)) and ('split' in norm(st) or 'partition' in norm(st))) if start is not None else 0
     if start is None or n_direct < 5:
         # main delegates: the option handling lives in private helpers (and a try block around them); use the
         # function with those helpers inlined and read the statements of the try / one-pass blocks in sequence
@@ -171,7 +171,7 @@ def main_slices(ctx, entry='mininec.main'):
                 dests |= set(re.findall(r'\bargs\.(\w+)', norm(pre[nm])))
             if not dests:
                 continue
-        if 'split' not in txt and not any(isinstance(n, ast.Call) and isinstance(n.func, ast.Name) and
+        if 'split' not in txt and 'partition' not in txt and not any(isinstance(n, ast.Call) and isinstance(n.func, ast.Name) and
                                           ('%s.%s' % (f.module.name, n.func.id)) in ctx.model.funcs for n in ast.walk(st)):
             continue
         stmts = [st]
@@ -258,6 +258,13 @@ def reader_model(ctx, entry='mininec.main'):
                     ok = False
             if ok and idx:
                 dispatch = (n.func.slice.value, idx)
+        elif isinstance(n, ast.For) and isinstance(n.target, ast.Tuple) and all(isinstance(t_, ast.Name) for t_ in n.target.elts):
+            # the same with the record unpacked in the loop header: for key, method, vector, tag, text in L: method(key, vector, tag)
+            names = [t_.id for t_ in n.target.elts]
+            for c in ast.walk(n):
+                if isinstance(c, ast.Call) and isinstance(c.func, ast.Name) and c.func.id in names and c.args and \
+                   all(isinstance(a, ast.Name) and a.id in names for a in c.args) and not c.keywords:
+                    dispatch = (names.index(c.func.id), [names.index(a.id) for a in c.args])
     # module-level names bound once to a whole number (ANGLE_FIELDS = 3)
     int_consts = {}
     for (mod_, nm_), v_ in ctx.model.module_consts.items():
@@ -327,8 +334,12 @@ def _index_of(e, P, n):
        isinstance(e.slice.value, int):
         i = e.slice.value
         return i if i >= 0 else n + i
-    if isinstance(e, ast.UnaryOp) and isinstance(e.op, ast.USub):
-        return None
+    if isinstance(e, ast.Call) and isinstance(e.func, ast.Attribute) and e.func.attr == 'join' and len(e.args) == 1 and \
+       isinstance(e.func.value, ast.Constant):
+        # sep.join(P[a:]) (the rest after a partition): with n fields and n - a == 1 that is the field a itself
+        b = _slice_bounds(e.args[0], P, n)
+        if b is not None and b[1] - b[0] == 1:
+            return b[0]
     return None
 
 
@@ -451,6 +462,10 @@ def _collect_fields(ctx, om, p, P, n, dispatch):
             # tags: by_tag[...] keys, tag / geo_tag arguments
             if isinstance(x, ast.Subscript) and isinstance(x.value, ast.Attribute) and x.value.attr == 'by_tag':
                 for i in _fields_of(x.slice, P, n):
+                    om.tags.setdefault((n, i), 'key of by_tag')
+            if isinstance(x, ast.Call) and isinstance(x.func, ast.Attribute) and x.func.attr == 'get' and x.args and \
+               isinstance(x.func.value, ast.Attribute) and x.func.value.attr == 'by_tag':
+                for i in _fields_of(x.args[0], P, n):
                     om.tags.setdefault((n, i), 'key of by_tag')
             if isinstance(x, ast.Call):
                 for a in _tag_params(ctx, x):
